@@ -307,7 +307,13 @@ RightHookRuns ==
 (* -------------------------------- export ------------------------------- *)
 BindingRec(b) == [hook |-> b.hook, kind |-> b.kind, name |-> Name(b), wid |-> Wid(b),
                   path |-> "/" \o ConfId \o "/" \o Wid(b)]
-Selected == CfgHash(cfg) % EmitMod = EmitRem
+\* exported for every seed: the two-hook configurations with one binding per hook over the names 1, 2 - both validating, both
+\* mutating and the two mixed ones, in both assignments of the names (a request to the binding of the SECOND hook in hook order
+\* must get past a first hook of either kind); the rest by residue class of the configuration.
+Core(c) == /\ Cardinality(c) = 2
+           /\ {b.hook : b \in c} = Hooks
+           /\ \A b \in c : b.n \in {1, 2}
+Selected == Core(cfg) \/ CfgHash(cfg) % EmitMod = EmitRem
 
 Emit ==
   (EmitCases /\ Done /\ Selected) =>
